@@ -158,6 +158,7 @@ func (ord *Order) ValidateWithContext(ctx context.Context) error {
 	return tax.ValidateStructWithContext(ctx, ord,
 		validation.Field(&ord.Regime),
 		validation.Field(&ord.Addons),
+		validation.Field(&ord.Tags.List, tax.TagsIn(supportedTagsFor(r, ord.AddonDefs(), ShortSchemaOrder)...)),
 		validation.Field(&ord.UUID),
 		validation.Field(&ord.Type,
 			validation.Required,
@@ -179,6 +180,7 @@ func (ord *Order) ValidateWithContext(ctx context.Context) error {
 			currency.CanConvertInto(ord.ExchangeRates, r.GetCurrency()),
 		),
 		validation.Field(&ord.ExchangeRates),
+		validation.Field(&ord.Tax),
 		validation.Field(&ord.Contracts),
 		validation.Field(&ord.Preceding),
 		validation.Field(&ord.Supplier, validation.Required),
